@@ -84,6 +84,12 @@ CLAIMS = {
                 'Image equality as a set statement is not decided.',
         'note': 'trusted: clang 14 AST, exporter',
     },
+    'C15': {
+        'text': 'Decides the structural clauses behind the witness automaton: sub-language by construction (every rule of the result is a role-preserving copy of a stored rule, tuples stay hash-consed, final states are a filter of the '
+                'input\'s final states over the reachable set), and the search side: first visits are enqueued, the worklist is drained (no early break without a result) and finality is looked at for every reached state. '
+                'Non-emptiness whenever A is non-empty is not decided as such.',
+        'note': 'trusted: clang 14 AST, exporter; frozen exception: one rule per newly reached state is the design of the witness',
+    },
     'C17': {
         'text': 'Decides the disciplines canonicity and pointwise application rest on, on every instantiation of the package: nodes are created only through the unique tables, no internal node with equal children is spawned '
                 '(two frozen, reasoned exceptions), every apply clears its address-keyed memo table before descending, the recursion pairs low with low and high with high and builds (low result, high result), '
